@@ -55,7 +55,8 @@ CLASSES = (['tr-m-minus1:' + a for a in ('surf-tr', 'trcl-num', 'fill-num',
            + [f'surf-many:{k}' for k in ELEM_KINDS]
            + [f'macro-few:{k}' for k in MACRO_KINDS]
            + [f'macro-many:{k}' for k in MACRO_KINDS]
-           + ['unknown-mnemonic', 'unknown-mnemonic-internal']
+           + ['unknown-mnemonic', 'unknown-mnemonic-internal',
+              'mnemonic-glued-to-number']
            + [f'facet-beyond:{k}' for k in MACRO_KINDS
               if k not in ('sph', 'ell')]
            + ['facet-beyond-unconverted']
@@ -354,6 +355,14 @@ def build_pair(case):
         bad.surfs[0].kind = rng.choice(['qx', 'pw', 'sphere', 'kk', 'c/w',
                                         'tt', 'plane'])
         return deck, bad, f'mnemonic {bad.surfs[0].kind}'
+    if head == 'mnemonic-glued-to-number':
+        # '7px' is neither a transformation number nor a mnemonic
+        deck = c04.build(_Sub(case, 'surf-tr|' + rng.choice(
+            ['translation', 'generic', 'quarter'])))
+        bad = copy.deepcopy(deck)
+        bad.surfs[0].glued = True
+        return deck, bad, ('entry ' + bad.surfs[0].atoms()[1] + ' on a '
+                           'surface card')
     if head == 'unknown-mnemonic-internal':
         # names of the converter's internal surface types (general cylinder,
         # cone, torus): they are not MCNP mnemonics
